@@ -204,7 +204,7 @@ func c11HostCase(s *verifh.Session, a string, valid bool) {
 		ok = h == oh && d == c11OracleDomain(oh)
 	}
 	class := ""
-	if h == c11LegacyHostname(a) && d == c11LegacyDomain(a) && c11LegacyAffected(a) {
+	if c11IsLegacyAnswer(a, h, d) {
 		class = c11LegacyClass
 	}
 	if c11LegacyAffected(a) {
@@ -273,7 +273,7 @@ func TestVerif_C11_spec(t *testing.T) {
 		}
 		h, d := getHostname(txt), getDomain(txt)
 		class := ""
-		if c11LegacyAffected(txt) && h == c11LegacyHostname(txt) && d == c11LegacyDomain(txt) {
+		if c11IsLegacyAnswer(txt, h, d) {
 			class = c11LegacyClass
 		}
 		s.Count(a.tricky)
